@@ -641,7 +641,14 @@ func parseAlert(ID string, alert *gtfsrt.Alert, opts *ParseRealtimeOptions) (*Al
 		informedEntities = append(informedEntities, informedEntity)
 	}
 
-	for routeID, directions := range informedRoutesFromTripIDs {
+	// Iterate in sorted order so that the output does not depend on map iteration order
+	fallbackRouteIDs := make([]string, 0, len(informedRoutesFromTripIDs))
+	for routeID := range informedRoutesFromTripIDs {
+		fallbackRouteIDs = append(fallbackRouteIDs, routeID)
+	}
+	sort.Strings(fallbackRouteIDs)
+	for _, routeID := range fallbackRouteIDs {
+		directions := informedRoutesFromTripIDs[routeID]
 		if informedRoutes[routeID] {
 			continue
 		}
